@@ -5,7 +5,7 @@
 using namespace vf;
 
 struct Tissue { const char* name; };
-static const char* TISSUES[] = {"one growing cell (remeshing)", "two adhering epithelial cells", "epithelial cell overlapping an ECM cell", "nucleus inside an epithelial cell", "lumen cell next to an epithelial cell, both growing"};
+static const char* TISSUES[] = {"one growing cell (remeshing)", "two adhering epithelial cells", "epithelial cell overlapping an ECM cell", "nucleus inside an epithelial cell", "lumen cell next to an epithelial cell, both growing", "two adhering epithelial cells, the first with an edge far below the minimum length (collapsed in the first iteration: free slots from then on)"};
 static const int NTR = 10;
 static const double TR[NTR][3] = {{0.25, 0, 0}, {1.125, -1.125, 0}, {8, -8, 8}, {1024, 1024, 1024}, {-5, -2.5, -1.5}, {-1024, 2048, 0.5}, {131072, -65536, 32768}, {-3.5, -1.25, -0.75} /* puts the vertex of the first cell that faces its neighbour (the middle of the contact zone of the two-cell tissues) exactly at the coordinate origin */, {-2.0, -1.25, -0.75} /* the tissue's reference point half a cell size from the coordinate origin: the origin lies inside the first cell, off its centre */,
     {-2048, -1536, -1024} /* the whole tissue far away in the octant where every coordinate is negative */};
@@ -18,6 +18,7 @@ static std::vector<sw::CellSpec> make_tissue(int t, const double tr[3], double e
     switch (t) {
         case 0: cs.push_back({translated(ico, ox, oy, oz), epi(30)}); break;
         case 1: cs.push_back({translated(ico, ox, oy, oz), epi(5)}); cs.push_back({translated(ico, ox + 2.0625, oy, oz), epi(5)}); break;
+        case 5: { Mesh m0 = ico; unsigned a = m0.tri[0], b = m0.tri[1]; for (int k = 0; k < 3; k++) m0.pos[3*a+k] = m0.pos[3*b+k] + 0.25 * (m0.pos[3*a+k] - m0.pos[3*b+k]);   /* 0.25 is a power of two: the contracted edge is the same rounded object in every placement */ cs.push_back({translated(m0, ox, oy, oz), epi(5)}); cs.push_back({translated(ico, ox + 2.0625, oy, oz), epi(5)}); break; }
         case 2: { cs.push_back({translated(ico, ox, oy, oz), epi(5)}); auto ecm = make_cell_type(1, 1); ecm->face_types_[0].repulsion_strength_ = 50; ecm->face_types_[0].adherence_strength_ = 1; cs.push_back({translated(scaled(ico, 1.5, 1.5, 1.5), ox + 2.25, oy + 0.25, oz), ecm}); break; }
         case 3: { cs.push_back({translated(ico, ox, oy, oz), epi(5)}); auto nuc = make_cell_type(3, 1); nuc->bulk_modulus_ = 20; nuc->face_types_[0].surface_tension_ = 0.5; nuc->face_types_[0].repulsion_strength_ = 50; cs.push_back({translated(scaled(ico, 0.5, 0.5, 0.5), ox + 0.5, oy, oz), nuc}); break; }
         default: { cs.push_back({translated(ico, ox, oy, oz), epi(10)}); auto lum = make_cell_type(2, 1); lum->bulk_modulus_ = 20; lum->avg_growth_rate_ = 10; lum->face_types_[0].surface_tension_ = 0.5; lum->face_types_[0].repulsion_strength_ = 50; cs.push_back({translated(scaled(ico, 0.75, 0.75, 0.75), ox - 1.6875, oy + 0.125, oz), lum}); }
@@ -98,7 +99,7 @@ static std::string check_division(int tri, std::string* note, bool early = false
 static void explore(Result& R) {
     const bool th = R.args.thorough(); long cases = 0, inconcl = 0, iters = 0; double worst = 0;
     std::vector<int> Ns = th ? std::vector<int>{10, 50, 200} : std::vector<int>{10, 40};
-    for (int t = 0; t < 5; t++) for (int tr = 0; tr < NTR; tr++) for (int N : (tr == 7 /* contact at the origin */ && (t == 1 || t == 2) && !th ? std::vector<int>{10, 40, 200} : Ns)) {   /* the contact-at-the-origin placement of the two-cell tissues also with the long run in the quick tier */ if (R.out_of_time(0.9)) { R.cap("deadline"); goto done; }
+    for (int t = 0; t < 6; t++) for (int tr = 0; tr < NTR; tr++) for (int N : (tr == 7 /* contact at the origin */ && (t == 1 || t == 2) && !th ? std::vector<int>{10, 40, 200} : Ns)) {   /* the contact-at-the-origin placement of the two-cell tissues also with the long run in the quick tier */ if (R.out_of_time(0.9)) { R.cap("deadline"); goto done; }
         progress("tissue=" + std::to_string(t) + "\ntr=" + std::to_string(tr) + "\nN=" + std::to_string(N) + "\n");
         Out o = check(t, tr, N); cases++; iters += 6L * N;
         if (o.err.rfind("INTERNAL", 0) == 0) { R.internal_error = o.err; return; }
